@@ -216,19 +216,22 @@ PROPS = {
         witness=['c13', '--max', '4', '--per', '40'],
         witness_thorough=['c13', '--max', '8', '--per', '3000'],
         level='proof',
-        technique='Verus contracts on the real compare-exchange layer (push_gt_circuit, push_condswap, push_eq_circuit)',
+        technique='Verus contracts on the real compare-exchange layer (push_gt_circuit, push_condswap, push_eq_circuit, push_sorter), on the per-entry closure of the join built-in and on the pair guard of compile_bitonic_merge (lifted)',
         claim='Unbounded deductive proof (Verus/Z3) of the compare-exchange layer used by join: push_gt_circuit returns exactly the unsigned '
               'comparison of the first `bits` wires for every width; push_condswap swaps exactly when the selector is true; '
               'push_eq_circuit is exact equality; push_sorter is a whole-element compare-exchange on the first `bits` wires; the per-entry closure of the '
-              'join built-in forces every wire but the flag to zero where the pair is not joined (unflagged entries are all zero). The bitonic network '
+              'join built-in forces every wire but the flag to zero where the pair is not joined (unflagged entries are all zero); the guard computed for '
+              'every pair of adjacent rows of the merged list (one iteration of the window loop of compile_bitonic_merge, lifted up to the callback): the pair '
+              'is joined exactly when the keys agree bit for bit AND the tag bits differ (one row from each array - each common key once, never two rows of '
+              'the same array). The bitonic network '
               'topology (push_bitonic_merger / push_bitonic_sorter) and compile_bitonic_merge (padding, tag bit, duplicate guard) are NOT under '
               'contract: a bounded differential through compile + eval runs for-join loops and the join built-in for every size pair up to (4,4) '
               '(thorough (8,8)) on sorted key arrays (random keys incl. 0 and 255, identical and disjoint sets, one key repeated within one array) '
               'against a reference merge join (body once per common key with the matching payloads; flagged entries exactly the common keys, zero '
               'elsewhere, flags sorted).',
-        note='Trusted: as C04. Unverified: network topology and everything in compile_bitonic_merge / the join built-in.',
+        note='Trusted: as C04; MergeMode (a dyn callback) is an opaque stand-in in the lifted window iteration (R5e: the statements from the callback on are dropped). Unverified: network topology, the construction of the padded / tagged rows in compile_bitonic_merge.',
         title='join: compare-exchange layer (gt / condswap / eq) exact for every width; network topology unverified',
-        unverified=['push_bitonic_merger, push_bitonic_sorter (network topology)', 'compile_bitonic_merge, JoinLoop lowering, join built-in: bounded differential only'],
+        unverified=['push_bitonic_merger, push_bitonic_sorter (network topology)', 'compile_bitonic_merge: padding / tagging of the rows and the order of the merged list; JoinLoop lowering as a whole: bounded differential only'],
     ),
     'C17': dict(
         units=['typing'],
